@@ -92,8 +92,11 @@ def u_read_list(ctx, index):
     'os': Namespace('os', {'path': os_path}),
     're': Namespace('re', {'compile': Builtin('compile', compile_), 'error': ExcClass('re.error')}),
     'log': Namespace('log', {'err': External('log.err', log), 'msg': External('log.msg', log)}),
-    'open': Builtin('open', lambda ip2, a, k: lines),
+    'open': Builtin('open', lambda ip2, a, k: lines),          # the file object: iterating it yields the lines
   })
+  # `with open(..) as fh:` binds the same object (closing it is of no concern here)
+  lines.enter = lambda ip2: lines
+  lines.exit = lambda ip2: None
   ip.ext[('method', 'strip')] = lambda ip2, o: STRIP(TAtom.enc(ip2, o))
   ip.ext[('method', 'startswith')] = lambda ip2, o, pre: IS_COMMENT(TAtom.enc(ip2, o)) if pre == '#' else (_ for _ in ()).throw(EngineError('startswith'))
   ip.ext[('truth', 'Atom')] = lambda ip2, v: z3.Not(IS_BLANK(v))
